@@ -36,7 +36,7 @@ class DiscreteFactorTable(Distribution):
             probs = (1/len(support),)*len(support)
         if probs is None:
             assert len(support) == len(scores)
-            if np.sum(scores) == -np.inf:
+            if np.max(scores) == -np.inf:
                 probs = np.zeros(len(support))
             else:
                 probs = softmax(scores)
